@@ -44,7 +44,11 @@ Accept           == Is("Accept")       /\ AcceptOK(inp, s)       /\ s' = AcceptN
 ParseBack        == Is("ParseBack")    /\ l = Len(T) /\ ParseBackOK(inp, s, E) /\ s' = ParseBackNx(inp, s, E) /\ Adv
 \* the next image of a history: accepted image behind, fresh ROM, the inputs of the next build
 NextBuild        == Is("NextBuild")    /\ IsHist /\ HNextBuildOK(s.st, E, b, NBuilds) /\ s' = S0 /\ b' = b + 1 /\ l' = l + 1 /\ UNCHANGED tid
-TNext == NextBuild \/ ParseIvt \/ BootData \/ Dcd \/ Xmcd \/ App \/ CsfHeader \/ InstallSrk \/ InstallCsfk \/ AuthenticateCsf \/ InstallImgk
+\* a REFUSED build (the only event of its trace) is no violation in exactly one situation: the nonce supplied for an encrypted image leaves
+\* a CCM length field (15 - |nonce| bytes) too small for the data to encrypt (application padded to 16 bytes) - no MAC record could be right
+BuildRefused     == Is("BuildFailed")  /\ ~IsHist /\ l = 1 /\ Len(T) = 1 /\ "nonceGiven" \in DOMAIN inp /\ inp.flags = "enc"
+                                       /\ inp.nonceGiven \in 7..13 /\ ~CcmFits(inp.nonceGiven, Align(inp.appLen, 16)) /\ UNCHANGED s /\ Adv
+TNext == BuildRefused \/ NextBuild \/ ParseIvt \/ BootData \/ Dcd \/ Xmcd \/ App \/ CsfHeader \/ InstallSrk \/ InstallCsfk \/ AuthenticateCsf \/ InstallImgk
          \/ AuthenticateData \/ InstallSecretKey \/ DecryptData \/ OtherCmd \/ CsfEnd \/ Accept \/ ParseBack
 Constr == IF TLCGet(tid) < l THEN TLCSet(tid, l) ELSE TRUE
 Post == \A i \in 1..Len(Traces) :
